@@ -227,7 +227,8 @@ impl Property for C13 {
             constraints_after_raise: AtomicU64::new(0),
             raised: AtomicBool::new(false),
         });
-        let robot = KinematicsWithShape { kinematics: counting.clone(), body: built.robot.body };
+        let mut robot = built.robot;
+        robot.kinematics = counting.clone();
         // bounded deterministic search for free end points: the k-th candidate shifts the fractions by k * golden ratio (mod 1)
         let pick = |u0: &[f64; 6], salt: f64| -> Option<[f64; 6]> {
             for k in 0..10 {
